@@ -435,6 +435,58 @@ func zzAck20(name string, n int) protocol.ACK {
 	return ack
 }
 
+// Only an ACK completes our own KeyUpdate. While a local KeyUpdate (request_update 0 or 1) is in flight - one
+// record, not yet acknowledged - a valid KeyUpdate of the PEER arrives (request_update 0 or 1, its epoch is the
+// current read epoch): the peer's message advances the READ generation only. Proved: the completion handed to
+// UpdateKeys has not fired, nothing was committed on the connection, the sending epoch is untouched and the local
+// flight is still active (it will be retransmitted until the ACK comes). A peer KeyUpdate(update_not_requested)
+// is not an answer to ours: the peer may have updated on its own initiative while our KeyUpdate was lost.
+//
+//symgo:entry covers=peer_update_while_ours_in_flight
+func zzPeerKeyUpdateDoesNotAckOurs() {
+	hashLen := 32
+	p, st, conn := zzPost20(hashLen)
+	cur := zzGenH20("cur", hashLen)
+	rcur := zzGenH20("rcur", hashLen)
+	st.TrafficKeys.Install(cur, rcur)
+	st.SetLocalEpoch(cur.Epoch)
+	st.SetRemoteEpoch(rcur.Epoch)
+	zzsymAssume(cur.Epoch != 0xffff)
+	zzsymAssume(rcur.Epoch != 0xffff)
+	sendSeq := int(zzsymU16("send_seq"))
+	zzsymAssume(sendSeq < 0xffff)
+	st.HandshakeSendSequence = sendSeq
+	ourRequest := handshake.KeyUpdateNotRequested
+	if zzsymChoice("our_request", 2) == 1 {
+		ourRequest = handshake.KeyUpdateRequested
+	}
+	ctx := context.Background()
+	completion := zzCompletion20()
+	zzSignals20 = 0
+	frags := []SentHandshakeFragment{{MessageSequence: uint16(sendSeq), Offset: 0, Length: 1}}
+	r, _ := zzRecord20("tx0", cur.Epoch, uint16(sendSeq), []int{0}, frags)
+	conn.nextRecords = []SentHandshakeRecord{r}
+	err := p.startKeyUpdate(ctx, conn, postHandshakeCommand{
+		Kind: commandSendKeyUpdate, KeyUpdate: keyUpdateCommand{Request: ourRequest}, Completion: completion,
+	})
+	zzsymAssert(err == nil && len(p.flights) == 1, "own_keyupdate_in_flight")
+
+	peerRequest := handshake.KeyUpdateNotRequested
+	if zzsymChoice("peer_request", 2) == 1 {
+		peerRequest = handshake.KeyUpdateRequested
+	}
+	err = p.handleKeyUpdate(ctx, conn, &handshake.MessageKeyUpdate{RequestUpdate: peerRequest}, rcur.Epoch)
+	zzsymAssert(err == nil, "peer_keyupdate_accepted")
+	now, has := st.TrafficKeys.CurrentRead()
+	zzsymAssert(has && now != rcur, "read_generation_advanced")
+
+	zzsymAssert(zzSignals20 == 0 && completion.outcome.Load() == nil, "peer_keyupdate_does_not_complete_our_update")
+	zzsymAssert(len(conn.commits) == 0, "peer_keyupdate_commits_no_write_generation")
+	zzsymAssert(st.LocalEpoch() == cur.Epoch, "peer_keyupdate_leaves_sending_epoch")
+	zzsymAssert(len(p.flights) == 1, "own_flight_still_active_after_peer_keyupdate")
+	zzsymCover("peer_update_while_ours_in_flight")
+}
+
 // UpdateKeys' reliable flight, from startKeyUpdate to completion: arbitrary current write generation (epoch e =
 // sending epoch), request_update 0/1; the KeyUpdate goes out as one record with one fragment, one record with
 // two fragments, or two records with one fragment each (arbitrary distinct record numbers); then an ACK with one
